@@ -48,6 +48,7 @@ type Obs struct {
 	Viol    []string `json:"viol,omitempty"`  // property clauses found violated by the worker-side oracle
 	Names   []string `json:"names,omitempty"` // hist: message order
 	Extra   string   `json:"extra,omitempty"`
+	Count   int      `json:"count,omitempty"` // export: number of schemas in the API
 }
 
 func (r *Request) dead(step string) bool {
